@@ -16,3 +16,37 @@ package types
 //@   ensures len(result) == 1 && result[0] == unbech32(msg.Owner)
 
 //@ property C06 := (MsgCreateProvider).GetSigners#*, (MsgUpdateProvider).GetSigners#*, (MsgDeleteProvider).GetSigners#*
+
+// ---- C16: events render to, and parse back from, attribute lists ----
+//@ import sdk "github.com/cosmos/cosmos-sdk/types"
+//@ spec carriesProv(attrs: []sdk.Attribute, a: str): bool = attrHas(attrs, "owner") && attrVal(attrs, "owner") == bech32(a)
+//@ spec carriesPHead(attrs: []sdk.Attribute, action: str): bool =
+//@     attrHas(attrs, "module") && attrVal(attrs, "module") == "provider" && attrHas(attrs, "action") && attrVal(attrs, "action") == action
+//@ func ProviderEVAttributes
+//@   fresh
+//@   ensures len(result) == 1 && result[0].Key == "owner" && result[0].Value == bech32(owner)
+//@ func ParseEVProvider
+//@   ensures [roundtrip] forall a: str {bech32(a)} :: carriesProv(attrs, a) ==> result1 == nil && result0 == a
+//@ func NewEventProviderCreated
+//@   ensures result.Owner == owner
+//@ func NewEventProviderUpdated
+//@   ensures result.Owner == owner
+//@ func NewEventProviderDeleted
+//@   ensures result.Owner == owner
+//@ func (EventProviderCreated).ToSDKEvent
+//@   ensures evType(result) == "akash.v1" && carriesPHead(evAttrs(result), "provider-created") && carriesProv(evAttrs(result), ev.Owner)
+//@ func (EventProviderUpdated).ToSDKEvent
+//@   ensures evType(result) == "akash.v1" && carriesPHead(evAttrs(result), "provider-updated") && carriesProv(evAttrs(result), ev.Owner)
+//@ func (EventProviderDeleted).ToSDKEvent
+//@   ensures evType(result) == "akash.v1" && carriesPHead(evAttrs(result), "provider-deleted") && carriesProv(evAttrs(result), ev.Owner)
+//@ func ParseEvent
+//@   ensures [foreign] ev.Type != "akash.v1" || ev.Module != "provider" ==> result1 != nil
+//@   ensures [created] forall a: str {bech32(a)} :: ev.Type == "akash.v1" && ev.Module == "provider" && ev.Action == "provider-created" && old(carriesProv(ev.Attributes, a)) ==>
+//@        result1 == nil && typeis(result0, EventProviderCreated) && unbox(result0, EventProviderCreated).Owner == a
+//@   ensures [updated] forall a: str {bech32(a)} :: ev.Type == "akash.v1" && ev.Module == "provider" && ev.Action == "provider-updated" && old(carriesProv(ev.Attributes, a)) ==>
+//@        result1 == nil && typeis(result0, EventProviderUpdated) && unbox(result0, EventProviderUpdated).Owner == a
+//@   ensures [deleted] forall a: str {bech32(a)} :: ev.Type == "akash.v1" && ev.Module == "provider" && ev.Action == "provider-deleted" && old(carriesProv(ev.Attributes, a)) ==>
+//@        result1 == nil && typeis(result0, EventProviderDeleted) && unbox(result0, EventProviderDeleted).Owner == a
+
+//@ property C16 := ProviderEVAttributes#*, ParseEVProvider#*, NewEventProviderCreated#*, NewEventProviderUpdated#*, NewEventProviderDeleted#*,
+//@     (EventProviderCreated).ToSDKEvent#*, (EventProviderUpdated).ToSDKEvent#*, (EventProviderDeleted).ToSDKEvent#*, ParseEvent#*
